@@ -16,6 +16,7 @@ import (
 	"os"
 	"path/filepath"
 	"strings"
+	"sync"
 	"testing"
 	"time"
 
@@ -251,8 +252,11 @@ func harvest(w *world) map[byte][]byte {
 	if w.hidden {
 		modes = []bool{true}
 	}
+	var omu sync.Mutex
 	for _, hidden := range modes {
 		w.net.SetPolicy(func(d *simnet.Datagram) []simnet.Delivery {
+			omu.Lock()
+			defer omu.Unlock()
 			if len(d.Data) > 0 {
 				if _, ok := out[d.Data[0]]; !ok {
 					out[d.Data[0]] = append([]byte(nil), d.Data...)
@@ -520,7 +524,10 @@ func batchRun(r *vh.Runner, c *vh.Case, cfg string, b int) {
 		// from its own address and from others
 		cl, ep := w.newClient(w.name, w.hidden)
 		caddr := ep.Source()
+		var pmu sync.Mutex // the policy runs on the sender's goroutine: the client's and the server's
 		w.net.SetPolicy(func(d *simnet.Datagram) []simnet.Delivery {
+			pmu.Lock()
+			defer pmu.Unlock()
 			var out []simnet.Delivery
 			flow := (d.Src.String() == caddr.String() || d.Dst.String() == caddr.String())
 			if flow {
@@ -946,7 +953,10 @@ func malleableRun(r *vh.Runner, c *vh.Case, cfg string) {
 			hcl, ep := w.newClient(w.name, false)
 			caddr := ep.Source()
 			done1 := false
+			var dmu sync.Mutex
 			w.net.SetPolicy(func(d *simnet.Datagram) []simnet.Delivery {
+				dmu.Lock()
+				defer dmu.Unlock()
 				flow := d.Src.String() == caddr.String() || d.Dst.String() == caddr.String()
 				if flow && !done1 && len(d.Data) > t.off+1 && d.Data[0] == t.msg {
 					done1 = true
